@@ -386,12 +386,14 @@ class InterpAlgorithmFixed(object):
             Extrapolation flag, -1 if the bracket is below the first table element, 1 if the
             bracket is above the last table element, 0 for normal interpolation.
         """
+        if self.vectorized(x):
+            # The cached scalar indices in last_index belong to the single-point search; leave them
+            # alone so that a single-point call can follow a vectorized one on the same table.
+            return [np.searchsorted(self.grid[j], x[..., j], side='left') - 1
+                    for j in range(self.dim)], None
+
         for j in range(self.dim):
-            if self.vectorized(x):
-                self.last_index[j] = np.searchsorted(self.grid[j], x[..., j], side='left') - 1
-            else:
-                self.last_index[j], _ = self._bracket_dim(self.grid[j], x[j],
-                                                          self.last_index[j])
+            self.last_index[j], _ = self._bracket_dim(self.grid[j], x[j], self.last_index[j])
 
         return self.last_index, None
 
@@ -475,6 +477,12 @@ class InterpAlgorithmFixed(object):
         ndarray
             Derivative of interpolated values with respect to grid.
         """
+        if isinstance(self.coeffs, set):
+            # The vectorized path keeps the set of cached cells in self.coeffs. Go back to the
+            # dictionary of per-cell coefficients; the vectorized cache is rebuilt when next needed.
+            self.coeffs = {}
+            self.vec_coeff = None
+
         idx, _ = self.bracket(x)
         result, d_dx, d_values, d_grid = self.interpolate(x, idx)
 
